@@ -204,6 +204,19 @@ func (a Box3) MinMaxDist2(p v3.Vec) Interval {
 			d := math.Min(math.Abs(a.Max.X), math.Abs(a.Min.X))
 			minDist2 = math.Min(minDist2, d*d)
 		}
+		// consider the edges (for the minimum)
+		dx := math.Min(math.Abs(a.Max.X), math.Abs(a.Min.X))
+		dy := math.Min(math.Abs(a.Max.Y), math.Abs(a.Min.Y))
+		dz := math.Min(math.Abs(a.Max.Z), math.Abs(a.Min.Z))
+		if withinX {
+			minDist2 = math.Min(minDist2, dy*dy+dz*dz)
+		}
+		if withinY {
+			minDist2 = math.Min(minDist2, dx*dx+dz*dz)
+		}
+		if withinZ {
+			minDist2 = math.Min(minDist2, dx*dx+dy*dy)
+		}
 	}
 
 	return Interval{minDist2, maxDist2}
